@@ -68,7 +68,9 @@ def run(data):
                 else: out.append({"m": implib.num(r.magnitude)})
         except Exception as ex:  # noqa
             out.append({"err": implib.errclass(ex)})
-    return {"results": out,
-            "cache": {"plan": list(conversions._plan_conversion.cache_info()), "path": list(conversions._find_path.cache_info())}}
+    def info(f):
+        try: return list(f.cache_info())
+        except Exception: return None        # not an lru_cache (any more)
+    return {"results": out, "cache": {"plan": info(conversions._plan_conversion), "path": info(conversions._find_path)}}
 
 implib.main_io(run)
